@@ -133,8 +133,13 @@ def record_qr(ptn, A, q0, q1, exact_wanted, full_rank_generic):
         if not ok_shape:
             return dict(ev='raise', exc=f'shape mismatch Q{Q.shape} R{R.shape} qi{len(rec["qi"])}', m=m, n=n, q0=q0, q1=q1)
         rec['sf'], rec['ss'] = supp(Q), supp(R)
-        scale = max(1.0, float(np.linalg.norm(A)))
-        resid = float(np.linalg.norm(Q @ R - A)) / scale
+        # relative residual, computed after dividing by the largest entry (the Frobenius norm of a matrix with entries around
+        # 1e-170 underflows to zero, of one with entries around 1e170 overflows)
+        amax = float(np.max(np.abs(A), initial=0.0))
+        if amax > 0 and (amax < 1e-3 or amax > 1e3):
+            resid = float(np.linalg.norm((Q @ (R / amax)) - A / amax)) / max(1.0, float(np.linalg.norm(A / amax)))
+        else:
+            resid = float(np.linalg.norm(Q @ R - A)) / max(1.0, float(np.linalg.norm(A)))
         iso = float(np.linalg.norm(Q.conj().T @ Q - np.eye(Q.shape[1])))
         rec.update(resid_ok=bool(resid <= 1e-10), resid_exp=exp10(resid), iso_ok=bool(iso <= 1e-10), iso_exp=exp10(iso),
                    dtype_ok=bool(np.issubdtype(Q.dtype, np.inexact) and np.issubdtype(R.dtype, np.inexact)
